@@ -6,7 +6,7 @@ import framework as fw
 import frames
 from checks import c03
 
-MODULE = ["LWV.Props.C04", "LWV.Props.C04Full"]
+MODULE = ["LWV.Props.C04", "LWV.Props.C04Full", "LWV.Props.C04Round"]
 GEN_PARSABLE = ["beacon", "probe_resp", "assoc_resp", "reassoc_resp", "probe_req", "assoc_req", "reassoc_req", "deauth", "disassoc"]
 
 
